@@ -347,7 +347,7 @@ def cross_check_oracle(binary, prop, seed, n):
     return agree, disagree, skipped, bad
 
 
-def check_diff(prop, tier, seed, level="exploration", profiles=("release",), quick=(24000, 90), thorough=(500000, 900), floors=(), extra=()):
+def check_diff(prop, tier, seed, level="exploration", profiles=("release",), quick=(24000, 90), thorough=(500000, 900), floors=(), extra=(), sanitize=False, memcheck=False):
     t0 = time.time()
     merged = Merge()
     count, secs = tier_counts(tier, quick, thorough)
@@ -355,6 +355,20 @@ def check_diff(prop, tier, seed, level="exploration", profiles=("release",), qui
     for p in profiles:
         res = run_shards(bins[p], "diff", prop, p, seed, tier, NCPU, count, secs, extra=extra)
         merged.add(p, res)
+    if sanitize and tier == "thorough":
+        # second opinion: AddressSanitizer build (nightly), guard allocator off, a report aborts the child
+        a = build("asan")
+        res = run_shards(a, "diff", prop, "asan", seed + 1, tier, NCPU, max(2000, count // 25), 600, extra=extra,
+                         env_extra={"ASAN_OPTIONS": "abort_on_error=1:halt_on_error=1:detect_leaks=0", "HV_ALLOC_PASS": "1"})
+        merged.add("asan", res)
+        merged.counters["asan_evaluations"] = merged.stage_counters.get("asan", {}).get("evaluations", 0)
+    if memcheck and tier == "thorough":
+        # second opinion on the JIT's own loads/stores: valgrind memcheck on the release harness
+        res = run_shards(bins[profiles[0]], "diff", prop, "memcheck", seed + 2, tier, NCPU, 600, 900, extra=list(extra) + ["--no-corpus"],
+                         env_extra={"HV_ALLOC_PASS": "1"},
+                         wrapper=["valgrind", "--tool=memcheck", "--error-exitcode=99", "--trace-children=yes", "--child-silent-after-fork=no", "-q", "--leak-check=no"])
+        merged.add("memcheck", res)
+        merged.counters["memcheck_evaluations"] = merged.stage_counters.get("memcheck", {}).get("evaluations", 0)
     agree, disagree, skipped, bad = cross_check_oracle(bins[profiles[0]], prop, seed, 150 if tier == "quick" else 1000)
     merged.counters["oracle_crosscheck_agree"] = agree
     merged.counters["oracle_crosscheck_disagree"] = disagree
@@ -810,10 +824,10 @@ def main():
         return replay(sys.argv[2])
     table = {
         "C01": lambda: check_diff("C01", tier, seed, floors=[("opt:motion.linear", 1), ("opt:loop.finite_symbolic", 1)]),
-        "C02": lambda: check_diff("C02", tier, seed, profiles=("release", "dbg")),
-        "C03": lambda: check_diff("C03", tier, seed),
-        "C04": lambda: check_diff("C04", tier, seed),
-        "C06": lambda: check_diff("C06", tier, seed, quick=(6000, 90), thorough=(120000, 900)),
+        "C02": lambda: check_diff("C02", tier, seed, profiles=("release", "dbg"), sanitize=True),
+        "C03": lambda: check_diff("C03", tier, seed, memcheck=True),
+        "C04": lambda: check_diff("C04", tier, seed, sanitize=True),
+        "C06": lambda: check_diff("C06", tier, seed, quick=(6000, 90), thorough=(120000, 900), sanitize=True, memcheck=True),
         "C07": lambda: check_diff("C07", tier, seed, quick=(4000, 90), thorough=(80000, 900)),
         "C08": lambda: check_diff("C08", tier, seed, level="fault_enumeration", quick=(3000, 90), thorough=(60000, 900)),
         "C05": lambda: check_cmd("C05", tier, seed, "c05", 700, 12000, "exploration", C05_RULE, DIFF_ASSUME + [
@@ -833,7 +847,7 @@ def main():
         "C14": lambda: check_props("C14", tier, seed, "c14", 200000, 5000000, miri_quick=(10, []), miri_thorough=(400, [])),
         "C15": lambda: check_props("C15", tier, seed, "c15", 8000, 600000, miri_quick=(2, []), miri_thorough=(80, [])),
         "C18": lambda: check_props("C18", tier, seed, "c18", 4000, 200000, miri_quick=(3, ["--ops", "60"]), miri_thorough=(40, ["--ops", "100"]), floors=[("drop_audits", 1000), ("by_value_iterations", 100)]),
-        "C10": lambda: check_diff("C10", tier, seed, quick=(8000, 90), thorough=(160000, 900)),
+        "C10": lambda: check_diff("C10", tier, seed, quick=(8000, 90), thorough=(160000, 900), sanitize=True),
     }
     if prop not in table:
         print(f"unknown property {prop}")
